@@ -278,7 +278,8 @@ where
 
     let is_eol = matches!(r#match, Some(LINE_FEED));
 
-    if is_eol && dst.ends_with(&[CARRIAGE_RETURN]) {
+    // The carriage return is only part of the line ending if it was read with this field.
+    if is_eol && len > 1 && dst.ends_with(&[CARRIAGE_RETURN]) {
         dst.pop();
     }
 
